@@ -31,7 +31,7 @@ func resetGlobals() {
 
 func cfgCacheReset() {}
 
-var defaultChecks = []string{"nil", "bounds", "div", "nilmap", "panic", "typeassert", "lock", "lockset", "randarg", "copylen"}
+var defaultChecks = []string{"nil", "bounds", "div", "nilmap", "panic", "typeassert", "lock", "lockset", "onesection", "randarg", "copylen"}
 
 // verifyFunc generates the obligations of one function under one configuration value.
 var debugEvalExprs []string
@@ -179,6 +179,9 @@ func (P *Prog) verifyFunc(fn *ssa.Function, c *Contract, cfgVal int, hasCfg bool
 	for _, g := range c.Guards {
 		pl := ce.lvaluePlace(g.Lock)
 		x.guards = append(x.guards, activeGuard{fam: pl.Prefix + "#held", idx: pl.Idx, prefixes: g.Prefixes, text: g.Text})
+		// "released inside this function" starts false (see lockIntr: one critical section per guarded operation)
+		rn := pl.Prefix + "#released"
+		st.heap.Set(rn, st.heap.Get(rn, len(pl.Idx), SBool).Store(pl.Idx, False()))
 	}
 	// lemmas stated at entry: proved from the precondition, then available to everything that follows
 	for ai, a := range c.Asserts {
@@ -470,8 +473,8 @@ func (x *Exec) frameAgainst(st *State, ref *Heap, locs []hloc, kind, prefix stri
 		if nf == of {
 			continue
 		}
-		if strings.HasPrefix(name, "ghost.") {
-			continue
+		if strings.HasPrefix(name, "ghost.") || strings.HasSuffix(name, "#released") {
+			continue // verifier-internal ghost state
 		}
 		whole := false
 		for _, l := range byFam[name] {
